@@ -53,6 +53,14 @@ func (c *cursor) n(k int) int {
 	c.i++
 	return v
 }
+func (c *cursor) raw() uint32 {
+	var v uint32
+	if c.i < len(c.a) {
+		v = c.a[c.i]
+	}
+	c.i++
+	return v
+}
 func (c *cursor) permille(p int) bool { return c.n(1000) < p }
 
 // OpenQ is the model-side record of an open query (one lock).
